@@ -7,6 +7,7 @@ import (
 	"go/printer"
 	"go/token"
 	"go/types"
+	"sort"
 	"strings"
 
 	"golang.org/x/tools/go/packages"
@@ -416,6 +417,20 @@ func exprPoly(info *types.Info, e ast.Expr, defs map[types.Object]localDef, stop
 			}
 			return polyAtom("len(" + exprTextD(info, x.Args[0], defs, 0) + ")"), true
 		}
+		if id, ok := ast.Unparen(x.Fun).(*ast.Ident); ok && (id.Name == "min" || id.Name == "max") && len(x.Args) >= 1 {
+			if _, isBuiltin := info.ObjectOf(id).(*types.Builtin); isBuiltin {
+				var args []string
+				for _, a := range x.Args {
+					p, ok := exprPoly(info, a, defs, stop, depth+1)
+					if !ok {
+						return nil, false
+					}
+					args = append(args, strings.NewReplacer("*", "\u00b7", " ", "").Replace(p.String()))
+				}
+				sort.Strings(args)
+				return polyAtom(id.Name + "(" + strings.Join(args, ";") + ")"), true
+			}
+		}
 		fnName := ""
 		if f := calleeFunc(info, x); f != nil {
 			fnName = f.Name()
@@ -493,12 +508,7 @@ func exprPoly(info *types.Info, e ast.Expr, defs map[types.Object]localDef, stop
 			return polyAtom("shr(" + strings.NewReplacer("*", "\u00b7", " ", "").Replace(a.String()) + "," + strings.NewReplacer("*", "\u00b7", " ", "").Replace(b.String()) + ")"), true
 		case token.AND, token.OR, token.XOR, token.AND_NOT:
 			// bitwise operators: opaque canonical atoms (operands of the commutative ones sorted)
-			sa := strings.NewReplacer("*", "\u00b7", " ", "").Replace(a.String())
-			sb := strings.NewReplacer("*", "\u00b7", " ", "").Replace(b.String())
-			if x.Op != token.AND_NOT && sb < sa {
-				sa, sb = sb, sa
-			}
-			return polyAtom("(" + sa + x.Op.String() + sb + ")"), true
+			return polyBitOp(x.Op, a, b), true
 		case token.REM:
 			safe := func(p Poly) string {
 				return strings.NewReplacer("*", "\u00b7", " ", "").Replace(p.String())
@@ -620,73 +630,10 @@ func ruleCommitteePartition(c *Ctx) {
 			}
 		}
 	}
-	// CommitteeCount
-	pk2, f2 := c.P.mustFunc("eth2/beacon/common", "CommitteeCount")
-	flat := strings.Join(strings.Fields(nodeString(c.P.Fset, f2.Body)), " ")
-	_ = pk2
-	a := strings.Contains(flat, "activeValidators / uint64(spec.SLOTS_PER_EPOCH)")
-	b := strings.Contains(flat, "/ uint64(spec.TARGET_COMMITTEE_SIZE)")
-	cl := strings.Contains(flat, "uint64(spec.MAX_COMMITTEES_PER_SLOT) < committeesPerSlot { committeesPerSlot = uint64(spec.MAX_COMMITTEES_PER_SLOT) }") ||
-		strings.Contains(flat, "committeesPerSlot > uint64(spec.MAX_COMMITTEES_PER_SLOT) { committeesPerSlot = uint64(spec.MAX_COMMITTEES_PER_SLOT) }")
-	fl := strings.Contains(flat, "committeesPerSlot == 0 { committeesPerSlot = 1 }") || strings.Contains(flat, "committeesPerSlot < 1 { committeesPerSlot = 1 }")
-	if a && b && cl && fl {
-		c.ok("CommitteeCount", f2.Pos(), "max(1, min(MAX_COMMITTEES_PER_SLOT, active / SLOTS_PER_EPOCH / TARGET_COMMITTEE_SIZE))")
-	} else if !a && !b && !cl && !fl {
-		c.unm("CommitteeCount", f2.Pos(), "formula written in an unrecognised form")
-	} else {
-		c.bad("CommitteeCount", f2.Pos(), "committee count deviates from max(1, min(MAX_COMMITTEES_PER_SLOT, active // SLOTS_PER_EPOCH // TARGET_COMMITTEE_SIZE)) [per-slot %v target-size %v clamp %v floor %v]", a, b, cl, fl)
-	}
-	// sampling siblings
-	type samp struct {
-		cond, perm string
-		pos        token.Pos
-	}
-	var samples []samp
-	for _, name := range []string{"ComputeProposerIndex", "ComputeSyncCommitteeIndices"} {
-		pk3, f3 := c.P.mustFunc("eth2/beacon/common", name)
-		_ = pk3
-		var s samp
-		ast.Inspect(f3.Body, func(n ast.Node) bool {
-			switch x := n.(type) {
-			case *ast.IfStmt:
-				if strings.Contains(types.ExprString(x.Cond), "MAX_EFFECTIVE_BALANCE") {
-					s.cond = types.ExprString(x.Cond)
-					s.pos = x.Pos()
-				}
-			case *ast.CallExpr:
-				if id, ok := x.Fun.(*ast.Ident); ok && id.Name == "PermuteIndex" && len(x.Args) == 4 {
-					s.perm = types.ExprString(x.Args[0]) + "|" + types.ExprString(x.Args[2]) + "|" + types.ExprString(x.Args[3])
-				}
-			}
-			return true
-		})
-		samples = append(samples, s)
-	}
-	if samples[0].cond == "" || samples[1].cond == "" {
-		c.unm("sampling.acceptance", samples[0].pos, "balance-weighted acceptance test not found in both samplers")
-	} else if samples[0].cond != samples[1].cond {
-		c.bad("sampling.acceptance", samples[1].pos, "proposer and sync-committee sampling accept candidates under different tests (%s vs %s); the spec uses one formula", samples[0].cond, samples[1].cond)
-	} else if strings.ReplaceAll(samples[0].cond, " ", "") != "effectiveBalance*0xff>=spec.MAX_EFFECTIVE_BALANCE*Gwei(randomByte)" {
-		c.bad("sampling.acceptance", samples[0].pos, "acceptance test is %s, the spec's is effective_balance * MAX_RANDOM_BYTE >= MAX_EFFECTIVE_BALANCE * random_byte", samples[0].cond)
-	} else {
-		c.ok("sampling.acceptance", samples[0].pos, "%s in both samplers", samples[0].cond)
-	}
-	p0 := strings.Split(samples[0].perm, "|")
-	p1 := strings.Split(samples[1].perm, "|")
-	if len(p0) == 3 && len(p1) == 3 && p0[0] == p1[0] && p0[1] == p1[1] && strings.Contains(p0[0], "SHUFFLE_ROUND_COUNT") && p0[1] == "uint64(len(active))" {
-		c.ok("sampling.permute", samples[0].pos, "PermuteIndex(SHUFFLE_ROUND_COUNT, i %% len(active), len(active), seed) in both samplers")
-	} else {
-		c.bad("sampling.permute", samples[0].pos, "candidate selection differs from compute_shuffled_index(i %% total, total, seed) with SHUFFLE_ROUND_COUNT rounds (%v / %v)", p0, p1)
-	}
-	// proposers per slot: seed = hash(epoch_seed + uint_to_bytes(slot)), slot = start+i, SLOTS_PER_EPOCH entries
-	pk4, f4 := c.P.mustFunc("eth2/beacon/common", "ComputeProposers")
-	_ = pk4
-	flat4 := strings.Join(strings.Fields(nodeString(c.P.Fset, f4.Body)), " ")
-	if strings.Contains(flat4, "i < spec.SLOTS_PER_EPOCH") && strings.Contains(flat4, "uint64(startSlot+i)") && strings.Contains(flat4, "proposers[i] = proposer") {
-		c.ok("ComputeProposers.slots", f4.Pos(), "one proposer per slot of the epoch, seeded with hash(epoch seed ++ slot)")
-	} else {
-		c.unm("ComputeProposers.slots", f4.Pos(), "per-slot proposer loop written in an unrecognised form")
-	}
+	// CommitteeCount: max(1, min(MAX_COMMITTEES_PER_SLOT, active / SLOTS_PER_EPOCH / TARGET_COMMITTEE_SIZE)), in any
+	// spelling: judged on normal forms (operands resolved through single-definition locals), not on text
+	committeeCountRule(c)
+	samplingRules(c)
 }
 
 var _ = packages.NeedName
@@ -819,4 +766,14 @@ func exprText(info *types.Info, e ast.Expr) string {
 		return x.Op.String() + exprText(info, x.X)
 	}
 	return types.ExprString(e)
+}
+
+// polyBitOp: the opaque canonical atom of a bitwise operation (operands of the commutative ones sorted).
+func polyBitOp(op token.Token, a, b Poly) Poly {
+	sa := strings.NewReplacer("*", "\u00b7", " ", "").Replace(a.String())
+	sb := strings.NewReplacer("*", "\u00b7", " ", "").Replace(b.String())
+	if op != token.AND_NOT && sb < sa {
+		sa, sb = sb, sa
+	}
+	return polyAtom("(" + sa + op.String() + sb + ")")
 }
